@@ -108,6 +108,13 @@ def judge_all(ctx, events, scenario_of, module="KeepstoreGCJudge", cfg="Judge_C0
             ctx.drift.append("beyond C04: contract rejected %s of scn %s" % (json.dumps(rev)[:160], head.get("scn")))
             continue
         extra = {"hist_class": hist_class(head, rj["trace"], rj["offset"]) if head.get("mode") == "random" else "none"}
+        kfc = kf_class(head)
+        if kfc == "C04-2-untrash-overwrites":
+            # the concurrent form of KF-C04-2 is a breach of the survival clause (a) and of nothing else
+            info, _ = seq_mirror(head, rj["trace"], rj["offset"])
+            if not info or info["fails"] != {"a"}:
+                kfc = "none"
+        extra["kf_class"] = kfc
         ctx.classify(rj, lambda h, extra=extra: dict(scenario_of(h), **extra))
     return len(traces) - len(rejected)
 
@@ -180,7 +187,7 @@ NEG = -10 ** 5
 
 
 def seq_mirror(reset, trace, offset=None):
-    """Replays KeepstoreGCContract's bookkeeping on a SEQUENTIAL trace (one request at a time, a scan after each).
+    """Replays KeepstoreGCContract's bookkeeping on a trace (sequential histories and concurrent schedules).
     Returns (info at the scan with 1-based index `offset`, list of GETs that failed inside the protected period).
     info = {"fails": set of ScanOk clauses that fail there, "lastop", "vanished": [volume index..], "seen": previous
     scan, "now", "over": volumes on which an untrash ran while a block file and a trashed copy were both present}."""
@@ -193,7 +200,7 @@ def seq_mirror(reset, trace, offset=None):
     prot = max([v["mtu"] + ttl for v in seen if v["st"] == "intact"], default=NEG)
     ent, emp_at, unt, must, gc = set(), NEG, False, False, False
     over = set()
-    call, t0, lastop = None, 0, None
+    pend, lastop, quiet = {}, None, True
     bad_gets = []
     info = None
     for i, ev in enumerate(trace[1:], 2):
@@ -201,16 +208,22 @@ def seq_mirror(reset, trace, offset=None):
         if kind == "tick":
             now += ev["d"]
         elif kind == "call":
-            call, t0 = ev, now
+            for c in pend.values():
+                c["sole"] = False
+            pend[ev["id"]] = dict(ev, t0=now, sole=quiet and not pend)
+            quiet = False
             if ev["op"] == "untrash":
                 over |= set(k for k in wr if seen[k]["st"] != "absent" and seen[k]["tr"])
-        elif kind == "ret" and call is not None:
+        elif kind == "ret" and ev.get("id") in pend:
+            call = pend.pop(ev["id"])
+            t0 = call["t0"]
             op, st = call["op"], ev.get("status")
             lastop = op
-            live = any(d > now for k in wr for d in seen[k]["tr"])
+            live = call["sole"] and any(d > now for k in wr for d in seen[k]["tr"])
+            untrashing = unt or any(c["op"] == "untrash" for c in pend.values())
             if op in ("put", "touch") and st == 200:
                 prot = max(prot, t0 + ttl)
-            elif op == "get" and now < prot and any(v["st"] == "intact" for v in seen) and st != 200:
+            elif op == "get" and call["sole"] and now < prot and any(v["st"] == "intact" for v in seen) and st != 200:
                 bad_gets.append({"scn": reset.get("scn"), "status": st})
             elif op == "delete":
                 gc = True
@@ -220,7 +233,7 @@ def seq_mirror(reset, trace, offset=None):
                 gc = True
                 if trash:
                     ent |= set(k for k in wr if call.get("mount", 0) in (0, k + 1)
-                               and ((seen[k]["st"] != "absent" and seen[k]["mt"] == call.get("req")) or unt))
+                               and ((seen[k]["st"] != "absent" and seen[k]["mt"] == call.get("req")) or untrashing))
             elif op == "empty":
                 gc = True
                 emp_at = max(emp_at, now)
@@ -246,7 +259,7 @@ def seq_mirror(reset, trace, offset=None):
                 info = {"fails": fails, "lastop": lastop, "vanished": vanished, "seen": seen, "now": now,
                         "over": set(over), "ttl": ttl}
             over -= set(k for k in range(n) if s[k]["st"] == "absent")
-            seen, tscan = s, now
+            seen, tscan, quiet = s, now, True
             ent, emp_at, unt, must, gc = set(), NEG, False, False, False
     return info, bad_gets
 
@@ -333,6 +346,8 @@ def run(ctx):
     for i in range(nrand):
         scns.append({"id": 9 * 10 ** 6 + i, "mode": "random", "rseed": ctx.seed * 1000003 + i,
                      "len": rnd.randint(3, 12)})
+    for i in range(4):   # fixed histories: a trash-list item naming a read-only mount (both kinds) x lifetime 0/2
+        scns.append({"id": 8 * 10 ** 6 + i, "mode": "random", "fixed": "rolist", "rseed": i, "len": 1})
     by_id = {s["id"]: s for s in scns}
 
     # RUN
@@ -364,6 +379,13 @@ def run(ctx):
                                                      mism[0].get("unused"), mism[0].get("blocked"), mism[0].get("unknown")))
     if hangs:
         raise vlib.InfraError("%d scenarios did not terminate (first scn=%s)" % (len(hangs), hangs[0].get("scn")))
+    stalled = set(t[0].get("scn") for t in traces if t[0].get("stalled"))
+    ctx.extra["stalled_scenarios"] = len(stalled)
+    if len(stalled) > max(5, len(traces) // 20):
+        raise vlib.InfraError("%d scenarios stalled before a clock tick; the machine is too loaded" % len(stalled))
+    if stalled:   # not judged: the clock could not be moved safely
+        traces = [t for t in traces if t[0].get("scn") not in stalled]
+        events = [ev for t in traces for ev in t]
     slow = [t[0] for t in traces if t[0].get("elapsed_ms", 0) > 20 * 60 * 1000]
     if slow:
         raise vlib.InfraError("a scenario took more than a third of a time unit; virtual time is unreliable")
